@@ -1,5 +1,5 @@
 import Uhppote.Driver.ModelBCD
-import Uhppote.Driver.Order
+import Uhppote.Driver.OrderModel
 import Uhppote.Driver.ModelCodec
 import Uhppote.Driver.ModelOps
 import Uhppote.Driver.Events
@@ -13,7 +13,7 @@ import Uhppote.Driver.ModelNet
 open Uhppote
 
 def handlers : List (List String → Option String) :=
-  [Driver.ModelBCD.handle, Driver.Order.model, Driver.ModelCodec.handle, Driver.ModelOps.handle, Driver.Events.model, Driver.ModelAddr.handle, Driver.ModelZones.handle, Driver.ModelText.handle, Driver.ModelInsulate.handle, Driver.ModelNet.handle]
+  [Driver.ModelBCD.handle, Driver.OrderModel.model, Driver.ModelCodec.handle, Driver.ModelOps.handle, Driver.Events.model, Driver.ModelAddr.handle, Driver.ModelZones.handle, Driver.ModelText.handle, Driver.ModelInsulate.handle, Driver.ModelNet.handle]
 
 def handle (ts : List String) : String :=
   match handlers.findSome? (· ts) with
